@@ -1162,6 +1162,7 @@ func (q *quorumState) GetJustificationOf(phase Phase, key ECChainKey) *Justifica
 	if key.IsZero() {
 		for _, justification := range q.receivedJustification {
 			if justification.Vote.Value.IsZero() && justification.Vote.Phase == phase {
+				justification = verifCanonicalJustification(justification, q.receivedJustification)
 				return justification
 			}
 		}
@@ -1446,6 +1447,7 @@ func (c *convergeState) GetJustificationOf(phase Phase, key ECChainKey) *Justifi
 	if key.IsZero() {
 		for _, value := range c.values {
 			if value.Justification.Vote.Value.IsZero() && value.Justification.Vote.Phase == phase {
+				value.Justification = verifCanonicalConvergeJustification(value.Justification, c.values)
 				return value.Justification
 			}
 		}
